@@ -40,6 +40,8 @@ def run_demo(src: Path, pid: str):
     script = b.read_text() if b.exists() else ""
     script = re.sub(r"/tmp/seed-(?:base|clean|orig\w*|" + pid + r"\w*)", str(WT), script)
     script = script.replace(f"/tmp/seed-out/{pid}", str(src))
+    script = re.sub(r"(?m)^(\s*)(TREE|SRC|REPO|ROOT|SRC_TREE|SOURCE|SRCDIR|T)=(\S+)", lambda m: f"{m.group(1)}{m.group(2)}={WT}", script)
+    script = re.sub(r"(?m)^(\s*)(BUILD|BUILD_DIR|BLD|B)=(\S+)", lambda m: f"{m.group(1)}{m.group(2)}={WT}/_build", script)
     work = Path(f"/tmp/seed-demo-{pid}")
     work.mkdir(exist_ok=True)
     (work / "run.sh").write_text("set -o pipefail\n" + script + "\n")
@@ -58,7 +60,27 @@ def run_demo(src: Path, pid: str):
     return verdict, out[-600:]
 
 
+def demo_only(pid):
+    dest = VERIF / "seeded" / pid
+    ensure_wt()
+    meta = json.loads((dest / "meta.json").read_text())
+    rec = meta.setdefault("coordinator_confirmation", {})
+    rec["demo_clean"], _ = run_demo(dest, pid)
+    ap = sh(f"git -C {WT} apply {dest}/patch.diff")
+    if ap.returncode == 0:
+        sh(f"cmake --build {WT}/_build -j8 --target ephemeralnet_core eph")
+        rec["demo_patched"], rec["demo_tail"] = run_demo(dest, pid)
+    sh(f"git -C {WT} checkout -q -- .")
+    sh(f"cmake --build {WT}/_build -j8 --target ephemeralnet_core eph")
+    (dest / "meta.json").write_text(json.dumps(meta, indent=1) + "\n")
+    print(pid, rec.get("demo_clean"), rec.get("demo_patched"), (rec.get("demo_tail") or "")[-200:].replace("\n", " | "))
+
+
 def main():
+    if sys.argv[1] == "--demo-only":
+        for pid in sys.argv[2:]:
+            demo_only(pid)
+        return
     pid = sys.argv[1]
     src = Path(sys.argv[2] if len(sys.argv) > 2 else f"/tmp/seed-out/{pid}")
     dest = VERIF / "seeded" / pid
